@@ -387,6 +387,11 @@ MUTANTS += [
     ("c01-pointwise-logscale-frozen", ["C01", "C02", "C03"], [("nflows/transforms/standard.py", "    @property\n    def _log_abs_scale(self) -> Tensor:\n        return torch.log(torch.abs(self._scale))\n", "        self.register_buffer(\"_log_abs_scale\", torch.log(torch.abs(scale)), persistent=False)\n")], "LD-STATE"),
 ]
 
+MUTANTS += [
+    ("c11-householder-zero-rows", ["C11"], [(ORT, "        basis = torch.eye(features)[torch.arange(num_pairs) % features]", "        basis = torch.eye(num_pairs, features)")], "ORTH-INIT"),
+    ("c11-householder-column-out-of-range", ["C11"], [(ORT, "            qv[-1, num_pairs % features] = 1", "            qv[-1, num_pairs] = 1")], "ORTH-INIT"),
+]
+
 # ---- C11 LIN-WORD / LIN-LOGDET on the matrix-word algebra ----
 MUTANTS += [
     ("c11w-lu-weight-order", ["C11"], [(LU, "        return lower @ upper", "        return upper @ lower")], "LIN-WORD"),
